@@ -16,8 +16,10 @@ real code    : the postconditions themselves on the real `get_oil` output, re-fl
                rate (second call), dead-oil proportions and component order, zero atmospheric gases.
 """
 import io
+import os
 import math
 import time
+import traceback
 import signal
 import warnings
 import contextlib
@@ -25,28 +27,30 @@ import numpy as np
 from common import req, close, relerr, TOL, run_driver
 
 META = {
-    'text': 'Theorems (Lean 4, over the reals, any number of dead-oil compounds and tracked atmospheric gases): returned mass fluxes are non-negative; exactly proportional to the requested rate; the dead-oil components keep their given proportions and order (gas block = natural gas x beta, atmospheric gases zero; normalisation of the given masses irrelevant); the liquid (gas, for the gas-rate convention) volume flow of the returned fluxes at standard conditions equals the requested rate EXACTLY, given homogeneity of the flash and scale invariance of density; the gas-to-oil ratio of the returned fluxes equals the requested one IF the value returned by fsolve is a root of gas_fraction. That fsolve returns a root is NOT proved: it is observed on the real get_oil over the quantifier by re-flashing the returned fluxes at 288.15 K, 101325 Pa. The model is tied to the real code by oracle-table correspondence (recorded flash / density answers and the recorded root replayed through the model).',
-    'note': 'PARTIAL: convergence of scipy.optimize.fsolve inside mix_gas_for_gor is a library contract that is only sampled (and observed to FAIL for volatile dead oils at high GOR, where the first guess lies beyond the dew point and the residual is NaN). Trusted: Lean kernel + 3 standard axioms; the hand transcription Model/Oil.lean (validated each run by the correspondence); real arithmetic for IEEE doubles. The flash and the equations of state are oracle parameters; their homogeneity / scale invariance (named hypotheses) is sampled on every case. Only the TAMOC-database branch of get_oil is modelled (no ADIOS/GNOME import).',
-    'technique': 'Lean 4 proof over a hand-written model + oracle-table correspondence + re-flash of the real outputs',
+    'text': 'Theorems (Lean 4, over the reals, any number of dead-oil compounds and tracked atmospheric gases): returned mass fluxes are non-negative; exactly proportional to the requested rate; the dead-oil components keep their given proportions and order (gas block = natural gas x beta, atmospheric gases zero; normalisation of the given masses irrelevant); the liquid (gas, for the gas-rate convention) volume flow of the returned fluxes at standard conditions equals the requested rate EXACTLY, given (hypotheses) homogeneity of the flash and scale invariance of density and that the rated phase is present - when it is absent no scaling can meet a positive rate (rate_target_infeasible_absent_phase); PARTIAL: the gas-to-oil ratio of the returned fluxes equals the requested one IF the value returned by fsolve is a root of gas_fraction (gor_target_if_root). That fsolve returns a root is NOT proved: it is observed on the real get_oil over the quantifier by re-flashing the returned fluxes at 288.15 K, 101325 Pa, with coverage floors per GOR band (0, 10-1000, >1000, >5000) as obligations. The model is tied to the real code by oracle-table correspondence (recorded flash / density answers and the recorded root replayed through the model).',
+    'note': 'PARTIAL: convergence of scipy.optimize.fsolve inside mix_gas_for_gor is a library contract that is only sampled, and observed to FAIL (known finding gor-fsolve-start-beyond-dew-point) for dead oils with a small C8+ fraction once GOR exceeds about 2000 scf/bbl - about a quarter of random database oils at 5000-20000; second known finding: gas-rate convention for a gas-free oil returns NaN silently. Both known keys are emitted only after their signature is verified on the case (all gas at the first guess + fsolve returned it + a root found by bisection; resp. fp_type 0, gor 0, no gas phase, all NaN); the share of cases ending in a known signature and of time-outs is bounded by obligations; a raise of get_oil is a keyed violation. Trusted: Lean kernel + 3 standard axioms; the hand transcription Model/Oil.lean (validated each run by the correspondence); real arithmetic for IEEE doubles. The flash and the equations of state are oracle parameters; their homogeneity / scale invariance are HYPOTHESES sampled on every case. Only the TAMOC-database branch of get_oil is modelled (no ADIOS/GNOME import).',
+    'technique': 'Lean 4 proof over a hand-written model + oracle-table correspondence + re-flash of the real outputs with coverage floors',
 }
 GEN = []
 MODULES = ['TamocV.Props.C12', 'TamocV.Model.Oil']
 RULE = ('get_oil on dead oils of 2-12 of the 12 database compounds that are liquid at 15 C / 1 atm, masses Dirichlet or log-uniform '
-        '(1e-4..1), normalised or scaled by 10^U(-2,3), given as array or list; rate 1, 1e6 and log-uniform 1-1e6 bbl/d; GOR 0, 10, '
-        '20000 and log-uniform 10-20000 scf/bbl; oil-rate and gas-rate convention (gas-rate only with GOR > 0); ca = [], all four '
-        'atmospheric gases or a subset; a second call at another rate for proportionality; a case is non-trivial when its rounded '
-        'inputs are new')
+        '(1e-4..1), normalised or scaled by 10^U(-2,3), given as array or list; rate 1, 1e6 and log-uniform 1-1e6 bbl/d; stratified '
+        'GOR: 0 (oil-rate and gas-rate convention), 10-1000, 1000-5000, 5000-20000 (random oils and oils with >= 50 % '
+        'toluene/ethylbenzene/n-decane that stay liquid under the gas load), two fixed cases; oil-rate and gas-rate convention; '
+        'ca = [], all four atmospheric gases or a subset; a second call at another rate for proportionality; a case is non-trivial '
+        'when its rounded inputs are new')
 LEVEL_NOTE = ('theorems over the reals about the hand-written model of the live-oil builder; flash/EOS answers and the root returned '
               'by fsolve are an oracle; the GOR target is proved only conditionally on fsolve returning a root (observed on the real '
               'code); homogeneity of the flash and scale invariance of density are sampled; floating point and libm are trusted')
 
 T_STD, P_STD = 273.15 + 15., 101325.
 FT3, BBL = 0.0283168, 0.158987
-TOL_RATE = 1e-6    # rate target: exact in the reals; in floating point it rests on flash(k*m) = k*flash(m), which the
-#                    iterative flash satisfies to its own tolerance at worst (measured: 1e-15)
-TOL_GOR = 1e-5     # GOR target: fsolve xtol 1.49e-8 relative on beta, times d ln GOR / d ln beta <= ~1/(1-beta) <= 100
-#                    (measured on converged cases: <= 3e-13)
-CALL_TIMEOUT = 90  # s, per get_oil call (rare very slow flashes belong to another property; counted, not reported)
+TOL_RATE = 1e-9    # rate target: exact in the reals; in floating point it rests on flash(k*m) = k*flash(m), which the flash
+#                    satisfies to rounding because it iterates on mole fractions (measured worst over 1500 cases: 1.6e-14)
+TOL_GOR = 1e-9     # GOR target: what the unchanged tree supports with a margin of 1000 (measured worst over 1500 converged
+#                    cases: 8e-13; fsolve converges quadratically well below its xtol).  A root finder stopped at xtol=1e-3
+#                    misses the target by 1e-5..1e-3 and is reported.
+CALL_TIMEOUT = {'quick': 45, 'thorough': 90}  # s, per get_oil call (slowest observed: 4.1 s)
 
 LIQUIDS = ['2-3-dimethylbutane', '2-methylpentane', '3-methylpentane', 'benzene', 'ethylbenzene', 'isopentane',
            'n-decane', 'n-heptane', 'n-hexane', 'n-pentane', 'neohexane', 'toluene']
@@ -142,41 +146,91 @@ FIXED_CASES = [
     # volatile condensate at a high GOR: the first guess of mix_gas_for_gor lies beyond the dew point
     {'composition': ['2-methylpentane', 'neohexane', '3-methylpentane', 'n-heptane', 'n-pentane'],
      'masses': [0.0128, 0.1459, 0.0041, 0.0041, 0.8331], 'norm': 'normalised', 'q': 1000., 'gor': 2348., 'fp_type': 1, 'ca': [],
+     'stratum': 'fixed',
      'rate_factor': 2., 'masses_as_list': False},
     # the documented default blowout oil at a moderate GOR
     {'composition': ['n-hexane', 'n-heptane', 'benzene', 'toluene', 'n-decane'], 'masses': [0.1, 0.2, 0.2, 0.3, 0.2],
-     'norm': 'normalised', 'q': 20000., 'gor': 500., 'fp_type': 1, 'ca': list(AIR), 'rate_factor': 0.5, 'masses_as_list': True},
+     'norm': 'normalised', 'q': 20000., 'gor': 500., 'fp_type': 1, 'ca': list(AIR), 'rate_factor': 0.5, 'masses_as_list': True,
+     'stratum': 'fixed'},
 ]
 
 
-def gen_case(r, i):
-    if i < len(FIXED_CASES):
-        return dict(FIXED_CASES[i])
+HEAVY = ('toluene', 'ethylbenzene', 'n-decane')
+
+
+def gen_oil(r, heavy=False):
     n = r.choice([2, 12, r.randint(2, 12), r.randint(2, 12), r.randint(2, 12)])
     comp = r.sample(LIQUIDS, n)
     if r.random() < 0.5:
         ms = np.array([r.gammavariate(1., 1.) + 1e-9 for _ in comp])
     else:
         ms = np.array([10 ** r.uniform(-4, 0) for _ in comp])
+    ms = ms / ms.sum()
+    if heavy:
+        # an oil that stays a liquid at 15 C / 1 atm under a large gas load: >= 50 % toluene / ethylbenzene / n-decane
+        if not any(cn in HEAVY for cn in comp):
+            comp[r.randrange(n)] = r.choice(HEAVY)
+        hv = np.array([cn in HEAVY for cn in comp])
+        f = r.uniform(0.5, 0.95)
+        ms[hv] *= f / ms[hv].sum()
+        ms[~hv] *= (1. - f) / max(ms[~hv].sum(), 1e-300)
+        ms = ms / ms.sum()
     if r.random() < 0.5:
-        ms, norm = ms / ms.sum(), 'normalised'
-    else:
-        ms, norm = ms / ms.sum() * 10 ** r.uniform(-2, 3), 'scaled'
+        return comp, ms, 'normalised'
+    return comp, ms * 10 ** r.uniform(-2, 3), 'scaled'
+
+
+def gen_case(r, stratum):
+    comp, ms, norm = gen_oil(r, heavy=stratum.endswith('heavy'))
     q = r.choice([1., 1.e6, 10 ** r.uniform(0, 6), 10 ** r.uniform(0, 6), 10 ** r.uniform(2, 5)])
-    gor = r.choice([0., 0., 10., 20000., 10 ** r.uniform(1, math.log10(20000.)), 10 ** r.uniform(1, math.log10(20000.)),
-                    10 ** r.uniform(1, math.log10(20000.)), 10 ** r.uniform(2, 3.5)])
-    fp = 1 if gor == 0. else r.choice([1, 1, 0])
+    fp = r.choice([1, 1, 0])
+    if stratum == 'gor0-oil':
+        gor, fp = 0., 1
+    elif stratum == 'gor0-gas':
+        gor, fp = 0., 0
+    elif stratum == '10-1000':
+        gor = r.choice([10., 10 ** r.uniform(1, 3), 10 ** r.uniform(1, 3), 10 ** r.uniform(2, 3)])
+    elif stratum == '1000-5000':
+        gor = 10 ** r.uniform(3, math.log10(5000.))
+    else:
+        gor = r.choice([20000., 10 ** r.uniform(math.log10(5000.), math.log10(20000.)), r.uniform(5000., 20000.)])
     ca = r.choice([[], [], list(AIR), r.sample(AIR, r.randint(1, 3))])
     c2 = r.choice([2., 0.5, 10 ** r.uniform(-3, 3), 86400.])
-    aslist = r.random() < 0.25
-    return {'composition': comp, 'masses': ms.tolist(), 'norm': norm, 'q': q, 'gor': gor, 'fp_type': fp, 'ca': ca,
-            'rate_factor': c2, 'masses_as_list': aslist}
+    return {'stratum': stratum, 'composition': comp, 'masses': ms.tolist(), 'norm': norm, 'q': q, 'gor': gor, 'fp_type': fp, 'ca': ca,
+            'rate_factor': c2, 'masses_as_list': r.random() < 0.25}
+
+
+# (stratum, quick count, thorough count); the two fixed cases come first
+PLAN = [('gor0-oil', 4, 70), ('gor0-gas', 1, 20), ('10-1000', 5, 140), ('1000-5000', 4, 90), ('5000-20000-heavy', 4, 80),
+        ('5000-20000', 3, 100)]
+# floors on JUDGED cases (all predicates evaluated: not timed out, not raised, not a known signature): (quick, thorough)
+FLOORS = {'gor=0': (3, 60), '0<gor<=1000': (5, 120), 'gor>1000': (7, 150), 'gor>5000': (4, 90)}
+MAX_TIMEOUT_SHARE = 0.10
+MAX_KNOWN_SHARE = 0.30
+
+
+def band(c):
+    g = c['gor']
+    return ['gor=0'] if g == 0. else (['0<gor<=1000'] if g <= 1000. else (['gor>1000', 'gor>5000'] if g > 5000. else ['gor>1000']))
 
 
 def call_get_oil(c, q):
     from tamoc import dbm_utilities
     ms = list(c['masses']) if c['masses_as_list'] else np.array(c['masses'])
     return dbm_utilities.get_oil({'composition': list(c['composition']), 'masses': ms}, q, c['gor'], list(c['ca']), c['fp_type'])
+
+
+def raise_key(e):
+    """narrow key of an exception raised by the code under test: type + innermost frame inside <repo>/tamoc"""
+    import common
+    tb = traceback.extract_tb(e.__traceback__)
+    pkg = os.path.join(os.path.realpath(common.REPO), 'tamoc') + os.sep
+    inner = [f for f in tb if os.path.realpath(f.filename).startswith(pkg)]
+    if inner:
+        site = '%s:%s' % (os.path.basename(inner[-1].filename), inner[-1].name)
+    else:
+        site = '%s:%s' % (os.path.basename(tb[-1].filename), tb[-1].name) if tb else '?'
+    return 'get_oil-raised:%s@%s' % (type(e).__name__, site), site
 
 
 def reflash(oil, mflux):
@@ -196,10 +250,17 @@ def run_case(ctx, c, worst):
     rep = dict(c)
     t0 = time.time()
     try:
-        with Recorder() as rec, quiet(), timebox(CALL_TIMEOUT):
+        with Recorder() as rec, quiet(), timebox(CALL_TIMEOUT[ctx.tier if ctx.tier in CALL_TIMEOUT else 'quick']):
             oil, mflux = call_get_oil(c, c['q'])
     except Timeout:
-        ctx.count('get_oil timed out after %d s (slow flash; counted, not a C12 matter)' % CALL_TIMEOUT)
+        ctx.count('get_oil timed out (time-boxed; bounded by a coverage obligation)')
+        c['outcome'] = 'timeout'
+        return None
+    except Exception as e:
+        key, site = raise_key(e)
+        ctx.violation(key, 'get_oil raised %s: %s (innermost tamoc frame %s) on an input of the quantifier'
+                      % (type(e).__name__, str(e)[:200], site), dict(rep, traceback=traceback.format_exc()[-3000:]))
+        c['outcome'] = 'raised'
         return None
     c['t_get_oil'] = time.time() - t0
     mflux = np.asarray(mflux, dtype=float)
@@ -211,18 +272,22 @@ def run_case(ctx, c, worst):
     if list(oil.composition) != exp_comp or len(mflux) != len(exp_comp):
         ctx.violation('get_oil-composition-order', 'returned mixture is not [natural gas] + dead oil + atmospheric gases in the given order',
                       rep)
+        c['outcome'] = 'violation'
         return None
     root = rec.roots[-1] if rec.roots else None
     if c['gor'] > 0. and root is None:
         ctx.violation('get_oil-no-root-find', 'gor > 0 but mix_gas_for_gor did not call the root finder', rep)
+        c['outcome'] = 'violation'
         return None
     # ---------------- GOR target first (its failure makes everything else meaningless) ----------------
     if not np.all(np.isfinite(mflux)):
         if root is None:
-            ctx.violation('mass-flux-nonfinite', 'get_oil returned non-finite mass fluxes (no gas added, no root find involved)', rep)
+            key, what = classify_gasfree_nan(c, oil, mflux, rep)
+            ctx.violation(key, 'get_oil returned non-finite mass fluxes: ' + what, rep)
         else:
             key, what = classify_gor_failure(c, root, rep)
             ctx.violation(key, 'get_oil returned non-finite mass fluxes: ' + what, rep)
+        c['outcome'] = 'known-signature' if key in (KEY_DEW, KEY_GASFREE) else 'violation'
         return None
     with quiet():
         m, vg, vl = reflash(oil, mflux)
@@ -236,6 +301,8 @@ def run_case(ctx, c, worst):
         if not e <= TOL_GOR:
             key, what = classify_gor_failure(c, root, rep)
             ctx.violation(key, 'returned mass fluxes re-flashed at 15 C, 1 atm do not have the requested gas-to-oil ratio: ' + what, dict(rep))
+            if key == KEY_DEW:
+                c['outcome'] = 'known-signature'
     else:
         if vg != 0.:
             ctx.violation('gor-zero-has-gas', 'GOR 0 requested but the returned fluxes form a gas phase at 15 C, 1 atm', rep)
@@ -272,7 +339,7 @@ def run_case(ctx, c, worst):
     # ---------------- proportional to the rate (second call) ----------------
     q2 = c['q'] * c['rate_factor']
     try:
-        with quiet(), timebox(CALL_TIMEOUT):
+        with quiet(), timebox(CALL_TIMEOUT[ctx.tier if ctx.tier in CALL_TIMEOUT else 'quick']):
             oil2, mflux2 = call_get_oil(c, q2)
         mflux2 = np.asarray(mflux2, dtype=float)
         e = float(np.max(np.abs(mflux2 - c['rate_factor'] * mflux))) / float(np.max(np.abs(c['rate_factor'] * mflux)))
@@ -282,6 +349,12 @@ def run_case(ctx, c, worst):
                           dict(rep, q2=q2, mass_flux2=mflux2.tolist(), relerr=e))
     except Timeout:
         ctx.count('second get_oil call timed out (counted)')
+        c['second_timeout'] = True
+    except Exception as e:
+        key, site = raise_key(e)
+        ctx.violation(key, 'second get_oil call (rate %g) raised %s: %s' % (q2, type(e).__name__, str(e)[:200]),
+                      dict(rep, q2=q2, traceback=traceback.format_exc()[-3000:]))
+    c.setdefault('outcome', 'judged')     # every predicate of the property was evaluated on this case
     # ---------------- named hypotheses sampled: homogeneity of the flash / scale invariance -------------
     std = [(mm, r) for mm, T, P, r in rec.flash if T == T_STD and P == P_STD]
     if std:
@@ -338,10 +411,31 @@ def run_case(ctx, c, worst):
     return lines, compare, rep
 
 
+KEY_DEW = 'gor-fsolve-start-beyond-dew-point'
+KEY_GASFREE = 'gas-rate-absent-gas-nan'
+
+
+def classify_gasfree_nan(c, oil, mflux, rep):
+    """non-finite fluxes without a root find.  `gas-rate-absent-gas-nan` ONLY for: gas-rate convention, gor = 0, the dead oil
+    itself has no gas phase at 15 C / 1 atm (checked here by flashing the normalised dead oil) and EVERY flux is NaN."""
+    if c['fp_type'] == 0 and c['gor'] == 0. and np.all(np.isnan(mflux)):
+        ms = np.zeros(len(mflux))
+        ms[:len(c['masses'])] = np.array(c['masses']) / np.sum(c['masses'])
+        with quiet():
+            m, xi, K = oil.equilibrium(ms, T_STD, P_STD)
+        rep['dead_oil_gas_mass_at_std'] = float(np.sum(m[0, :]))
+        if np.sum(m[0, :]) == 0. and np.sum(m[1, :]) > 0.:
+            return KEY_GASFREE, ('gas-rate convention (fp_type=0) requested for a gas-free oil (gor=0, no gas phase at 15 C / 1 atm): '
+                                 'set_mass_fluxes divides the zero gas mass by the density of nothing, every flux is NaN, no error')
+    return 'mass-flux-nonfinite', 'no gas added, no root find involved'
+
+
 def classify_gor_failure(c, root, rep):
-    """distinct keys for the ways the root find can fail.  `gor-fsolve-start-beyond-dew-point` is used ONLY when
-    (a) the residual at fsolve's start value is not finite (all gas at standard conditions), (b) fsolve handed that
-    start value back, and (c) a root of the same residual demonstrably exists (found here by bisection)."""
+    """distinct keys for the ways the root find can fail.  `gor-fsolve-start-beyond-dew-point` is used ONLY when the documented
+    signature is verified on this very case:
+    (a) at fsolve's start value the mixture flashed at 15 C / 1 atm is ALL GAS (liquid row empty, gas row not) and therefore
+        the residual is not finite there, (b) fsolve handed that start value back, (c) a root of the same residual
+        demonstrably exists below the start value (bracketed on a grid, refined by bisection to |residual| <= 1e-9 gor)."""
     from tamoc import dbm_utilities
     if root is None:
         return 'gor-target-missed', 'no root find recorded'
@@ -352,9 +446,13 @@ def classify_gor_failure(c, root, rep):
             return float(dbm_utilities.gas_fraction(b, gor0, oil_r, mf_gas, mf_oil, T, P))
     r0, rb = f(root['x0']), f(root['beta'])
     rep.update({'fsolve_x0': root['x0'], 'residual_at_x0': r0, 'fsolve_result': root['beta'], 'residual_at_result': rb})
-    if not math.isfinite(r0) and root['beta'] == root['x0']:
-        # does a root exist?  the two-phase interval lies below the first guess (NaN above it: all gas; NaN near 0: all
-        # liquid, no gas density).  Scan a grid for a sign change between two finite residuals, then bisect.
+    all_gas = False
+    if 0. < root['x0'] < 1.:
+        with quiet():
+            m, xi, K = oil_r.equilibrium(root['x0'] * np.asarray(mf_gas) + (1. - root['x0']) * np.asarray(mf_oil), T, P)
+        all_gas = bool(np.sum(m[1, :]) == 0. and np.sum(m[0, :]) > 0.)
+        rep['liquid_mass_at_x0'] = float(np.sum(m[1, :]))
+    if all_gas and not math.isfinite(r0) and root['beta'] == root['x0']:
         grid = [root['x0'] * (k / 48.) for k in range(1, 48)]
         vals = [f(b) for b in grid]
         lo = hi = None
@@ -374,26 +472,39 @@ def classify_gor_failure(c, root, rep):
                     lo = mid
             rl = f(lo)
             rep.update({'bisection_root': lo, 'residual_at_bisection_root': rl})
-            if abs(rl) <= TOL_GOR * gor0:
-                return ('gor-fsolve-start-beyond-dew-point',
-                        'the first guess of the gas mass fraction (%.4g) lies where the mixture is all gas at standard conditions, the '
-                        'residual is NaN/inf there and fsolve returns its start value, although a root exists at beta=%.6g '
+            if abs(rl) <= 1e-9 * gor0:
+                return (KEY_DEW,
+                        'the first guess of the gas mass fraction (%.4g) lies beyond the dew point (the mixture is all gas at 15 C / 1 atm), '
+                        'the residual is NaN/inf there and fsolve returns its start value, although a root exists at beta=%.6g '
                         '(bisection)' % (root['x0'], lo))
-        return 'gor-start-nan-no-root-found', ('residual not finite at the first guess %.4g and no root of gas_fraction bracketed below it'
+        return 'gor-start-nan-no-root-found', ('all gas at the first guess %.4g and no root of gas_fraction bracketed below it'
                                                % root['x0'])
+    if not math.isfinite(rb):
+        return 'gor-residual-nonfinite', ('residual not finite at the returned beta=%.6g (first guess %.6g, residual there %r; all gas at '
+                                          'the first guess: %s)' % (root['beta'], root['x0'], r0, all_gas))
     return 'gor-target-missed', 'fsolve stopped at beta=%.6g with residual %.3g (first guess %.6g, residual %.3g)' % (root['beta'], rb, root['x0'], r0)
 
 
 def run(ctx, lean_ok):
     r = ctx.rng
-    n = ctx.n(20, 500)
     worst = {k: 0. for k in ('gor', 'rate', 'prop', 'linear', 'homog', 'residual/gor', 'corr')}
     lines, owners = [], []
     tmax = 0.
-    for i in range(n):
-        c = gen_case(r, i)
+    todo = [dict(c) for c in FIXED_CASES]
+    for name, nq, nt in PLAN:
+        todo += [gen_case(r, name) for _ in range(ctx.n(nq, nt))]
+    ntot = len(todo)
+    allowed_timeouts = max(1, int(MAX_TIMEOUT_SHARE * ntot))
+    outcomes = {}
+    judged = {k: 0 for k in FLOORS}
+    ntimeout = 0
+    done = 0
+    for c in todo:
+        if ntimeout > allowed_timeouts:
+            break           # more time-outs than the coverage obligation tolerates: stop burning time, the floor fails below
+        done += 1
         ctx.evaluations += 1
-        ctx.count('gor=0' if c['gor'] == 0. else ('gor<=1000' if c['gor'] <= 1000. else 'gor>1000'))
+        ctx.count('stratum ' + c['stratum'])
         ctx.count('fp_type=%d' % c['fp_type'])
         ctx.count('ca=%d' % len(c['ca']))
         ctx.count('masses ' + c['norm'])
@@ -401,6 +512,14 @@ def run(ctx, lean_ok):
                             float('%.6g' % c['masses'][0])))
         res = run_case(ctx, c, worst)
         tmax = max(tmax, c.get('t_get_oil', 0.))
+        oc = c.get('outcome', 'violation')
+        outcomes[oc] = outcomes.get(oc, 0) + 1
+        ctx.count('outcome ' + oc)
+        if oc == 'timeout' or c.get('second_timeout'):
+            ntimeout += 1
+        if oc == 'judged':
+            for b in band(c):
+                judged[b] += 1
         if res is None:
             continue
         ls, cmp, rep = res
@@ -408,6 +527,17 @@ def run(ctx, lean_ok):
         lines.extend(ls)
         ctx.sample({k: rep[k] for k in ('composition', 'masses', 'q', 'gor', 'fp_type', 'ca', 'mass_flux', 'rate_reflashed_bbl_d')
                     if k in rep}, cap=3)
+    # ---- coverage obligations: an all-timeout / always-failing get_oil must not pass ------------------------------
+    for b, (fq, ft) in FLOORS.items():
+        need = ctx.n(fq, ft)
+        ctx.oblige('coverage floor: >= %d cases with %s JUDGED (all predicates evaluated on a finite get_oil result)' % (need, b),
+                   judged[b] >= need, 'only %d judged; outcomes %r' % (judged[b], outcomes))
+    ctx.oblige('coverage: all %d planned cases attempted and time-outs <= %d (%.0f %%)' % (ntot, allowed_timeouts, 100 * MAX_TIMEOUT_SHARE),
+               done == ntot and ntimeout <= allowed_timeouts, '%d attempted, %d time-outs' % (done, ntimeout))
+    nknown = outcomes.get('known-signature', 0)
+    ctx.oblige('coverage: cases ending in a known-finding signature <= %.0f %% of the cases' % (100 * MAX_KNOWN_SHARE),
+               nknown <= MAX_KNOWN_SHARE * ntot, '%d of %d' % (nknown, ntot))
+    ctx.notes.append('outcomes: %r; judged per band: %r' % (outcomes, judged))
     if lean_ok and lines:
         out = run_driver(ctx, 'C12', lines)
         if out is not None:
@@ -425,7 +555,6 @@ def run(ctx, lean_ok):
     for v in ctx.violations:
         ctx.count('predicate failed: ' + v['key'])
     ctx.notes.append('worst deviations: ' + ', '.join('%s=%.3g' % kv for kv in sorted(worst.items())))
-    ctx.notes.append('tolerances: TOL_RATE=%g, TOL_GOR=%g (fsolve xtol 1.49e-8 on beta x sensitivity <= 100); slowest get_oil call %.1f s'
+    ctx.notes.append('tolerances: TOL_RATE=%g, TOL_GOR=%g (measured worst on the unchanged tree 1.6e-14 / 8e-13); slowest get_oil call %.1f s'
                      % (TOL_RATE, TOL_GOR, tmax))
     ctx.notes.append('fsolve convergence is OBSERVED only (C12 partial): the GOR theorem is conditional on gas_fraction(beta) = 0')
-    ctx.notes.append('gas-rate convention is generated only with GOR > 0 (a gas-free dead oil has no gas volume to rate)')
